@@ -76,3 +76,18 @@ func GenRace(t *rapid.T) *RaceCase {
 		WaitSpin: rapid.SampledFrom([]int{0, 1, 50, 300, 1500}).Draw(t, "waitspin"),
 	}
 }
+
+// GenTrickle: many deliveries per case, no race detector (the window is a
+// few instructions wide and needs volume).
+func GenTrickle(t *rapid.T) *RaceCase {
+	return &RaceCase{
+		Mode:     "trickle",
+		Rounds:   rapid.IntRange(100, 300).Draw(t, "rounds"),
+		NH:       rapid.SampledFrom([]int{1, 4, 16}).Draw(t, "nh"),
+		Seq:      rapid.IntRange(0, 3).Draw(t, "seq") != 0,
+		Burst:    rapid.SampledFrom([]int{5, 20, 40}).Draw(t, "burst"),
+		WaitSpin: rapid.IntRange(0, 96).Draw(t, "waitspin"),
+		Procs:    rapid.SampledFrom([]int{2, 4, 16, 16}).Draw(t, "procs"),
+		Ctx:      rapid.Bool().Draw(t, "ctx"),
+	}
+}
